@@ -172,13 +172,33 @@ class MirrorRun:
 
 
 def report_violations(ctx, run, props, behs):
-    """Turns harness 'violation' records for the given properties into ctx.violation calls."""
+    """Turns harness 'violation' records for the given properties into ctx.violation calls.  A predicate failure must
+    reproduce when the same behaviour is replayed again (one behaviour per fingerprint): timing never decides a verdict."""
+    cand = {}
     for r in run.by_kind("violation"):
-        if r["prop"] not in props:
+        if r["prop"] not in props or r["beh"] >= len(behs):
             continue
-        steps = behs[r["beh"]][: r["step"] + 1] if r["beh"] < len(behs) else None
-        ctx.violation(r["pred"], r["site"], r["class"], r["what"],
-                      replay_obj={"world": run.name, "steps": strip(steps)})
+        cand.setdefault((r["pred"], r["site"], r["class"]), r)
+    if not cand:
+        return
+    keys = list(cand)
+    again_run = MirrorRun.__new__(MirrorRun)
+    again_run.__dict__.update(run.__dict__)
+    again_run.records, again_run.deaths, again_run.inconclusive = [], [], []
+    again_run.summary = {"behaviours": 0, "steps": 0, "mismatches": 0, "violations": 0, "ops": {}, "distinct_states": 0}
+    again_run.replay([behs[cand[k]["beh"]] for k in keys])
+    again = {(r2["beh"], r2["pred"], r2["site"], r2["class"]) for r2 in again_run.by_kind("violation")}
+    died = {d["beh"] for d in again_run.deaths}
+    dropped = 0
+    for n, k in enumerate(keys):
+        r = cand[k]
+        if (n, k[0], k[1], k[2]) in again or n in died:
+            steps = behs[r["beh"]][: r["step"] + 1]
+            ctx.violation(r["pred"], r["site"], r["class"], r["what"], replay_obj={"world": run.name, "steps": strip(steps)})
+        else:
+            dropped += 1
+    if dropped:
+        ctx.log("%d predicate failures did not reproduce on a second replay and are dropped" % dropped)
 
 
 def strip(steps):
